@@ -560,20 +560,28 @@ func registerReflect(ex *Executor) {
 			if x.Obj == nil {
 				return smt.IntC(0)
 			}
-			return smt.IntC(int64(x.Obj.ID)*1000 + int64(len(x.Path)))
+			return smt.IntC(addrOf(x))
 		case MapV:
 			if x.Obj == nil {
 				return smt.IntC(0)
 			}
-			return smt.IntC(int64(x.Obj.ID) * 1000)
+			return smt.IntC(addrOf(Ptr{Obj: x.Obj}))
 		case SliceV:
 			if x.Arr == nil {
 				return smt.IntC(0)
 			}
-			return smt.IntC(int64(x.Arr.ID)*1000 + int64(x.Off))
+			return smt.IntC(addrOf(Ptr{Obj: x.Arr, Path: fmt.Sprintf("/i%d", x.Off)}))
 		}
 		ex.goPanic(st, "reflect: Pointer of "+r.Typ.String())
 		return nil
+	})
+	// UnsafeAddr: the address of an addressable value; a struct's first field (and the first element of an array) has the
+	// address of the enclosing value, as in the gc layout
+	V("UnsafeAddr", func(ex *Executor, st *State, r *RValue, a []Val) Val {
+		if r.Addr.Obj == nil {
+			ex.goPanic(st, "reflect.Value.UnsafeAddr of unaddressable value")
+		}
+		return smt.IntC(addrOf(r.Addr))
 	})
 	V("MapKeys", func(ex *Executor, st *State, r *RValue, a []Val) Val {
 		m, ok := ex.rcur(st, r).(MapV)
@@ -920,4 +928,47 @@ func registerReflect(ex *Executor) {
 		}
 		return smt.Lower(s), cNext
 	}
+}
+
+var gcSizes = types.SizesFor("gc", "amd64")
+
+// addrOf: a concrete address for a location: objects are 16 MiB apart, offsets inside an object follow the gc/amd64 layout
+func addrOf(p Ptr) int64 {
+	off := int64(0)
+	t := p.Obj.Typ
+	if p.Path != "" {
+		for _, step := range strings.Split(p.Path[1:], "/") {
+			n := 0
+			for _, c := range step[1:] {
+				n = n*10 + int(c-'0')
+			}
+			if t == nil {
+				off += int64(n) * 8
+				continue
+			}
+			switch u := t.Underlying().(type) {
+			case *types.Struct:
+				fs := make([]*types.Var, u.NumFields())
+				for i := range fs {
+					fs[i] = u.Field(i)
+				}
+				if n < len(fs) {
+					off += gcSizes.Offsetsof(fs)[n]
+					t = fs[n].Type()
+				} else {
+					t = nil
+				}
+			case *types.Array:
+				off += int64(n) * gcSizes.Sizeof(u.Elem())
+				t = u.Elem()
+			case *types.Slice:
+				off += int64(n) * gcSizes.Sizeof(u.Elem())
+				t = u.Elem()
+			default:
+				off += int64(n) * 8
+				t = nil
+			}
+		}
+	}
+	return (int64(p.Obj.ID)+1)<<24 + off
 }
